@@ -130,7 +130,36 @@ Definition zstep_spec (ς : sstate Z) (o : zop) : option (sstate Z * outcome Z) 
   end.
 
 Definition zguard (σ : store Z) (o : zop) : gclass :=
+  let tens l := flat_map (fun t => match get_t Z σ t with Some d => [d] | None => [] end) l in
+  let dst_of (m : mode) := match m with MReuse r | MIncr r => get_t Z σ r | _ => None end in
+  let cdst_of (m : cmode) := match m with CReuse r | CIncr r => get_t Z σ r | _ => None end in
+  let rsize l := match tens l with d :: _ => size (shp (d_ap d)) | [] => 0 end in
+  let rshape l := match tens l with d :: _ => shp (d_ap d) | [] => [] end in
+  let soft a b := match get_t Z σ a, get_t Z σ b with
+                  | Some x, Some y => negb (list_eqb (shp (d_ap x)) (shp (d_ap y))) && shape_eq (shp (d_ap x)) (shp (d_ap y))
+                  | _, _ => false end in
   match o with
   | ZBase b => guard_op Z σ b
-  | _ => GOther
+  | ZBin code a b m _ =>
+    if (6 <=? code) && match m with MSafe | MReuse _ => false | _ => true end then GModeUnsupported else
+    match guard_elementwise (tens [a; b]) (dst_of m) (rsize [a]) (rshape [a]) with
+    | GOk => if soft a b then GShapeSoft
+             else if (6 <=? code) && match m with MSafe | MReuse _ => false | _ => true end then GModeUnsupported
+             else GOk
+    | g => g
+    end
+  | ZBinS _ t _ _ m => guard_elementwise (tens [t]) (dst_of m) (rsize [t]) (rshape [t])
+  | ZCmp _ a b _ m _ =>
+    match guard_elementwise (tens [a; b]) (cdst_of m) (rsize [a]) (rshape [a]) with
+    | GOk => if soft a b then GShapeSoft
+             else match m with CIncr _ => GModeUnsupported | _ => GOk end
+    | g => g
+    end
+  | ZCmpS _ t _ lft _ m =>
+    match guard_elementwise (tens [t]) (cdst_of m) (rsize [t]) (rshape [t]) with
+    | GOk => if negb lft && existsb (fun d => requires_iterator d) (tens [t]) then GScalarLeftView
+             else match m with CIncr _ => GModeUnsupported | _ => GOk end
+    | g => g
+    end
+  | ZUn _ a m => guard_elementwise (tens [a]) (dst_of m) (rsize [a]) (rshape [a])
   end.
